@@ -2,7 +2,7 @@ import TabulaModel.Model.XmlTree
 /-
 Model of tabula's ODT reader (odt/reader.go, document.go, tables.go, lists.go,
 resolver.go) as it is after the C16 fixes and the resource bounds of the C02 repairs
-(maxInlineDepth, maxSpaceRun, maxTableGridCells, maxCellSpan): streaming body walk, inline
+(maxInlineDepth - beyond it `Open` fails -, maxSpaceRun, maxTableGridCells, maxCellSpan): streaming body walk, inline
 content in document order, heading level, nested lists, table spans. Core Lean only.
 
 Inputs: the authored trees of content.xml and (optionally) styles.xml.
@@ -306,15 +306,11 @@ paragraph or heading by `decodeInlineContentAt` (descends into `text:span` / `te
 level of recursion each, refused beyond `maxInlineDepth`), a list by encoding/xml
 (`listXML` / `listItemXML`: items, their `text:p` and nested `text:list`), a table by
 `tableXML.UnmarshalXML` (rows, grouping elements, cells, their `text:p`). Every other child
-is skipped unread. When the depth check fails the error travels up through all of them,
-`DecodeElement` fails, `parseBodyElements` says `continue` - the element is dropped - and goes on
-reading tokens FROM WHERE THE DECODER STANDS: right behind the start tag that was refused.
-It does so up to the end tag of the PARAGRAPH the decoder gave up in, no further: encoding/xml
-marks the decoder's stack below every element it hands to an `UnmarshalXML` method
-(`pushEOF`; `paragraphXML` and `headingXML` have one), takes the mark off only when the method
-succeeds, and `Token` answers `io.EOF` as soon as a mark is on top - which ends the loop of
-`parseBodyElements`. Everything behind that paragraph (the rest of its list or table, the rest
-of the body) is never read. -/
+is skipped unread. When the depth check fails the error (`errInlineTooDeep`) travels up through
+all of them and `DecodeElement` fails; `parseBodyElements` returns it and `odt.Open` fails.
+`residualNode` / `residualList` say WHETHER that happens (`some`); what they carry - the nodes
+that stand behind the refused start tag inside the paragraph the decoder gave up in - mattered
+to the code before the repair only (`walkNodeOld`). -/
 
 /-- `maxInlineDepth` (odt/document.go) -/
 def maxInlineDepth : Nat := 10000
@@ -378,13 +374,26 @@ end
 /-- `DecodeElement` succeeds on a `text:p` / `text:h` -/
 def paraDecodes (p : Node) : Bool := (residualList (.inline 0) p.kids).isNone
 
-/-! ### parseBodyElements: the streaming walk -/
+/-- `DecodeElement` succeeds on a body element whose children the decoder `ctx` reads: the
+depth check fails nowhere below it -/
+def decodes (ctx : Ctx) (kids : List Node) : Bool := (residualList ctx kids).isNone
 
-/-- state of the loop of `parseBodyElements`: `inBody`, the elements recorded, and `done` =
-`decoder.Token()` has answered `io.EOF` and the loop has ended (`break`) -/
+/-! ### parseBodyElements: the streaming walk
+
+`parseBodyElements` hands every `text:p`, `text:h`, `text:list`, `table:table` of the body to
+`decoder.DecodeElement`. When the depth check of `decodeInlineContentAt` fails below such an
+element (`residualList` answers `some`), `DecodeElement` returns `errInlineTooDeep`,
+`parseBodyElements` returns it (`if errors.Is(err, errInlineTooDeep) { return err }`), and
+`odt.Open` fails with "parsing content: inline content nested deeper than 10000 levels" - as
+`docx.Open` does. (Any other `DecodeElement` error still leaves the element out with `continue`;
+on the well-formed trees the model starts from there is none.) Before that repair the error was
+swallowed: `walkNodeOld` below. -/
+
+/-- state of the loop of `parseBodyElements`: `inBody`, the elements recorded, and `failed` =
+the loop has returned the depth error (`Open` fails) -/
 structure Walk where
   inBody : Bool
-  done : Bool := false
+  failed : Bool := false
   acc : List Elem
 deriving Repr, Inhabited
 
@@ -394,59 +403,119 @@ def listElems (list : Node) : List Elem :=
 mutual
 /-- one subtree of the token stream: `office:text` switches the body on (start) and off
 (end); inside the body `p`, `h`, `list`, `table` are decoded whole (`DecodeElement` consumes
-the subtree) and recorded - unless the decoder gives up inside (`scanList` answers `some`):
-then nothing is recorded for the element, the walk goes on behind the refused start tag to the
-end of the paragraph the decoder gave up in, and there the loop ends (`done`); any other
-element is walked through.
-Once the loop has ended no token is read. -/
+the subtree) and recorded - unless the decoder gives up inside (`decodes` is false): then
+`parseBodyElements` returns the error and nothing more is read (`failed`); any other element is
+walked through. -/
 def walkNode (defs : List StyleDef) : Node → Walk → Walk
   | .text _, w => w
   | .elem tag attrs kids, w =>
-    if w.done then w
+    if w.failed then w
     else if tag == sOfficeText then
       { walkList defs kids { w with inBody := true } with inBody := false }
     else if !w.inBody then walkList defs kids w
     else if localName tag == sP then
-      (match scanList defs (.inline 0) kids w with
-       | some w' => { w' with done := true }
-       | none => { w with acc := w.acc ++ [.para (processParagraph (.elem tag attrs kids))] })
+      (if decodes (.inline 0) kids then { w with acc := w.acc ++ [.para (processParagraph (.elem tag attrs kids))] }
+       else { w with failed := true })
     else if localName tag == sH then
-      (match scanList defs (.inline 0) kids w with
-       | some w' => { w' with done := true }
-       | none => { w with acc := w.acc ++ [.para (processHeading defs (.elem tag attrs kids))] })
+      (if decodes (.inline 0) kids then { w with acc := w.acc ++ [.para (processHeading defs (.elem tag attrs kids))] }
+       else { w with failed := true })
     else if localName tag == sList then
-      (match scanList defs .list kids w with
-       | some w' => { w' with done := true }
-       | none => { w with acc := w.acc ++ listElems (.elem tag attrs kids) })
+      (if decodes .list kids then { w with acc := w.acc ++ listElems (.elem tag attrs kids) }
+       else { w with failed := true })
     else if localName tag == sTable then
-      (match scanList defs .table kids w with
-       | some w' => { w' with done := true }
-       | none => { w with acc := w.acc ++ [.table (parseTable (.elem tag attrs kids))] })
+      (if decodes .table kids then { w with acc := w.acc ++ [.table (parseTable (.elem tag attrs kids))] }
+       else { w with failed := true })
     else walkList defs kids w
 def walkList (defs : List StyleDef) : List Node → Walk → Walk
   | [], w => w
   | n :: rest, w => walkList defs rest (walkNode defs n w)
-/-- the decoder `ctx` reads a child while `parseBodyElements` waits in `DecodeElement`:
+end
+
+/-- the walk of `parseBodyElements` over content.xml -/
+def bodyWalk (content : Node) (styles : Option Node) : Walk :=
+  walkNode (allStyles content styles) content { inBody := false, acc := [] }
+
+/-- the element list the walk records for content.xml and an optional styles.xml (what the
+reader holds when `Open` succeeds) -/
+def elements (content : Node) (styles : Option Node) : List Elem := (bodyWalk content styles).acc
+
+/-- `odt.Open` as far as the element list goes: `parseContent` returns the depth error and
+`Open` fails - `none`; otherwise the reader holds `elements`. -/
+def openElements (content : Node) (styles : Option Node) : Option (List Elem) :=
+  if (bodyWalk content styles).failed then none else some (elements content styles)
+
+/-! ### the walk before the repair (kept for the record: `Props/C16Bounds.lean`, `…_pinned_counterexample`)
+
+Until the repair `parseBodyElements` said `continue` on EVERY `DecodeElement` error - the element
+was dropped - and went on reading tokens FROM WHERE THE DECODER STOOD: right behind the start tag
+that was refused. It did so up to the end tag of the PARAGRAPH the decoder gave up in, no
+further: encoding/xml marks the decoder's stack below every element it hands to an
+`UnmarshalXML` method (`pushEOF`; `paragraphXML` and `headingXML` have one), takes the mark off
+only when the method succeeds, and `Token` answers `io.EOF` as soon as a mark is on top - which
+ended the loop of `parseBodyElements`. Everything behind that paragraph (the rest of its list or
+table, the rest of the body) was never read, and `odt.Open` reported NO error. -/
+
+/-- state of the old loop: `done` = `decoder.Token()` has answered `io.EOF` and the loop has
+ended (`break`) -/
+structure WalkOld where
+  inBody : Bool
+  done : Bool := false
+  acc : List Elem
+deriving Repr, Inhabited
+
+mutual
+/-- the old `parseBodyElements` on one subtree: when the decoder gives up inside a body element
+(`scanListOld` answers `some`) nothing is recorded for the element, the walk goes on behind the
+refused start tag to the end of the paragraph the decoder gave up in, and there the loop ends
+(`done`) -/
+def walkNodeOld (defs : List StyleDef) : Node → WalkOld → WalkOld
+  | .text _, w => w
+  | .elem tag attrs kids, w =>
+    if w.done then w
+    else if tag == sOfficeText then
+      { walkListOld defs kids { w with inBody := true } with inBody := false }
+    else if !w.inBody then walkListOld defs kids w
+    else if localName tag == sP then
+      (match scanListOld defs (.inline 0) kids w with
+       | some w' => { w' with done := true }
+       | none => { w with acc := w.acc ++ [.para (processParagraph (.elem tag attrs kids))] })
+    else if localName tag == sH then
+      (match scanListOld defs (.inline 0) kids w with
+       | some w' => { w' with done := true }
+       | none => { w with acc := w.acc ++ [.para (processHeading defs (.elem tag attrs kids))] })
+    else if localName tag == sList then
+      (match scanListOld defs .list kids w with
+       | some w' => { w' with done := true }
+       | none => { w with acc := w.acc ++ listElems (.elem tag attrs kids) })
+    else if localName tag == sTable then
+      (match scanListOld defs .table kids w with
+       | some w' => { w' with done := true }
+       | none => { w with acc := w.acc ++ [.table (parseTable (.elem tag attrs kids))] })
+    else walkListOld defs kids w
+def walkListOld (defs : List StyleDef) : List Node → WalkOld → WalkOld
+  | [], w => w
+  | n :: rest, w => walkListOld defs rest (walkNodeOld defs n w)
+/-- the decoder `ctx` reads a child while the old `parseBodyElements` waits in `DecodeElement`:
 `none` = read to its end, nothing happens to the walk; `some w'` = the depth check failed below
 the child, `DecodeElement` returned the error, and the walk has gone on, as the ordinary body
 walk, over the rest of the paragraph it happened in (`w'` is the walk when `Token` says `io.EOF`) -/
-def scanNode (defs : List StyleDef) (ctx : Ctx) : Node → Walk → Option Walk
+def scanNodeOld (defs : List StyleDef) (ctx : Ctx) : Node → WalkOld → Option WalkOld
   | .text _, _ => none
   | .elem tag _ kids, w =>
     match descend ctx (localName tag) with
     | .skip => none
-    | .fail => some (walkList defs kids w)
-    | .into c => scanList defs c kids w
-def scanList (defs : List StyleDef) (ctx : Ctx) : List Node → Walk → Option Walk
+    | .fail => some (walkListOld defs kids w)
+    | .into c => scanListOld defs c kids w
+def scanListOld (defs : List StyleDef) (ctx : Ctx) : List Node → WalkOld → Option WalkOld
   | [], _ => none
   | n :: rest, w =>
-    match scanNode defs ctx n w with
-    | some w' => some (if ctx.isInline then walkList defs rest w' else w')
-    | none => scanList defs ctx rest w
+    match scanNodeOld defs ctx n w with
+    | some w' => some (if ctx.isInline then walkListOld defs rest w' else w')
+    | none => scanListOld defs ctx rest w
 end
 
-/-- the reader's element list for content.xml and an optional styles.xml -/
-def elements (content : Node) (styles : Option Node) : List Elem :=
-  (walkNode (allStyles content styles) content { inBody := false, acc := [] }).acc
+/-- what the reader held before the repair - for every content.xml, with no error -/
+def elementsOld (content : Node) (styles : Option Node) : List Elem :=
+  (walkNodeOld (allStyles content styles) content { inBody := false, acc := [] }).acc
 
 end Tabula.Odt
